@@ -480,24 +480,44 @@ def r_ls(A, ctx, scope, rule="R-LS"):
                 if isinstance(st, ast.Assign) and isinstance(st.value, ast.Name) \
                         and st.value.id == halve and isinstance(st.targets[0], ast.Name):
                     prev = st.targets[0].id
-        ctx.ob(rule, f"{f.fq}::backtrack", bool(halve and prev),
+        order_ok = False
+        if halve and prev:
+            # the save must precede the halving in the same statement list
+            for blk in ast.walk(lp):
+                for body in (getattr(blk, "body", None), getattr(blk, "orelse", None)):
+                    if not isinstance(body, list):
+                        continue
+                    i_save = [k for k, st in enumerate(body) if isinstance(st, ast.Assign)
+                              and isinstance(st.value, ast.Name) and st.value.id == halve
+                              and isinstance(st.targets[0], ast.Name) and st.targets[0].id == prev]
+                    i_half = [k for k, st in enumerate(body) if isinstance(st, ast.AugAssign)
+                              and isinstance(st.op, ast.Div) and isinstance(st.target, ast.Name)
+                              and st.target.id == halve]
+                    if i_save and i_half and max(i_save) < min(i_half):
+                        order_ok = True
+        ctx.ob(rule, f"{f.fq}::backtrack", bool(halve and prev and order_ok),
                what="on failure the step is not halved after saving it as the previous "
-                    "step", loc=loc(f, lp))
+                    "step (saving after the halving makes every later move zero: the search "
+                    "never damps the step)", loc=loc(f, lp))
         # same coefficient for iterate and model fit
         if halve and prev:
             coefs = []
             for st in ast.walk(lp):
                 if isinstance(st, ast.AugAssign) and isinstance(st.op, ast.Add) \
                         and isinstance(st.value, ast.BinOp) and isinstance(st.value.op, ast.Mult):
-                    nm = names_in(st.value.left)
-                    if {halve, prev} <= nm:
-                        coefs.append((ast.dump(st.value.left), st))
+                    # every in-place move that depends on the step (not only those already
+                    # written with both names): `w[-1] += step * d` after a halving moves the
+                    # intercept by more than the model fit
+                    for fac in (st.value.left, st.value.right):
+                        if halve in names_in(fac) and not (names_in(fac) - {halve, prev}):
+                            coefs.append((ast.dump(fac), st))
+                            break
             n += 1
             wrole = [c for c in coefs if "W0" in flow.roles(f, c[1].target)
                      or "W" in flow.roles(f, c[1].target)]
             xrole = [c for c in coefs if "XW0" in flow.roles(f, c[1].target)
                      or "XW" in flow.roles(f, c[1].target)]
-            same = len({c[0] for c in coefs}) == 1 and bool(wrole) and bool(xrole)
+            same = len({c[0] for c in wrole + xrole}) == 1 and bool(wrole) and bool(xrole)
             ctx.ob(rule, f"{f.fq}::pair", same,
                    what="iterate and model fit are not moved by the same "
                         "(step - prev_step) multiple of the direction",
